@@ -1245,8 +1245,8 @@ func main() {
 		if end > len(terms) {
 			end = len(terms)
 		}
-		run.WriteCasesV(fmt.Sprintf("cases_%d.v", start), []string{"Sql.Codec", "Sql.Live"},
-			g.Prelude()+"Definition mm (_ : nat) cs := live_mismatches E cs.\n", "mm", 0, terms[start:end])
+		run.WriteCasesV(fmt.Sprintf("cases_%d.v", start), []string{"Sql.Codec", "Sql.Live", "Sql.LiveCt"},
+			g.Prelude()+"Definition mm (_ : nat) cs := live_mismatches_ct PT cs.\n", "mm", 0, terms[start:end])
 	}
 	run.Finish()
 }
